@@ -396,5 +396,8 @@ func parseMailboxName(localPart string) (result string, err error) {
 	if idx := strings.Index(result, "+"); idx > -1 {
 		result = result[0:idx]
 	}
+	if result == "" {
+		return "", errors.New("mailbox name cannot be empty")
+	}
 	return result, nil
 }
